@@ -524,8 +524,9 @@ def m_op_assign(interp, fn, args, st, site, frame):
 # iterators over fixed-size arrays and integer ranges: concrete counters, so that `for` loops over
 # `arr.iter_mut().enumerate().take(n).skip(m)` or `0..n` unroll instead of being havocked
 
-def _array_len(interp, r, st):
-    """length of the array a slice reference was unsized from, if known from the pointee's type"""
+def _array_len(interp, r, st, frame=None):
+    """length of the array a slice reference was unsized from, if known from the pointee's type (`[T; N]` in a function
+    generic over N: the value N has at this call, when the frame knows it)"""
     if not isinstance(r, Ref):
         return None
     base = st.heap.get(r.addr)
@@ -541,6 +542,9 @@ def _array_len(interp, r, st):
         return int(rec["len"])
     if isinstance(v, Adt) and v.name == "array":
         return len(v.fields)
+    if isinstance(rec, dict) and rec.get("k") == "array" and rec.get("len") is None and frame is not None \
+            and getattr(frame, "cparams", None) and len(frame.cparams) == 1:
+        return int(frame.cparams[0])
     return None
 
 
@@ -553,12 +557,12 @@ def _window(r):
     return None
 
 
-def _extent(interp, r, st):
+def _extent(interp, r, st, frame=None):
     """(base ref, lo, hi) of a slice reference whose extent is known: a view, or an array unsized to a slice"""
     w = _window(r)
     if w is not None:
         return w
-    n = _array_len(interp, r, st)
+    n = _array_len(interp, r, st, frame)
     return (r, 0, n) if n is not None else None
 
 
@@ -567,7 +571,7 @@ def m_split_at_concrete(interp, fn, args, st, site, frame):
     if not getattr(interp, "concrete_iters", False) or len(args) != 2:
         return None
     k = interp.concretize(args[1], st)
-    ext = _extent(interp, args[0], st)
+    ext = _extent(interp, args[0], st, frame)
     if ext is None or not (isinstance(k, Const) and isinstance(k.v, int) and 0 <= k.v <= ext[2] - ext[1]):
         return None
     r, lo, hi = ext
@@ -577,7 +581,7 @@ def m_split_at_concrete(interp, fn, args, st, site, frame):
 
 def m_view_len(interp, fn, args, st, site, frame):
     if args and getattr(interp, "concrete_iters", False):
-        ext = _extent(interp, args[0], st)
+        ext = _extent(interp, args[0], st, frame)
         if ext is not None:
             return [(Const(ext[2] - ext[1], "usize"), st)]          # a view, or a slice unsized from an array of known length
     return None
@@ -706,7 +710,7 @@ def m_iter_zip(interp, fn, args, st, site, frame):
     elif isinstance(b, Adt) and b.name == "array":
         other = Adt("it:array", 0, (b, Const(0, "usize")))
     elif isinstance(b, Ref):
-        ext = _extent(interp, b, st)
+        ext = _extent(interp, b, st, frame)
         if ext is None or ext[2] - ext[1] > 64:
             return None
         other = Adt("it:slice", 0, (ext[0], Const(ext[1], "usize"), Const(ext[2], "usize")))
@@ -721,7 +725,7 @@ def m_slice_iter(interp, fn, args, st, site, frame):
     w = _window(args[0]) if args else None
     if w is not None:
         return [(Adt("it:slice", 0, (w[0], Const(w[1], "usize"), Const(w[2], "usize"))), st)]
-    n = _array_len(interp, args[0], st) if args else None
+    n = _array_len(interp, args[0], st, frame) if args else None
     if n is None or n > 64:
         return None
     return [(Adt("it:slice", 0, (args[0], Const(0, "usize"), Const(n, "usize"))), st)]
@@ -776,6 +780,31 @@ def _drain(interp, it, st, site, k=0):
             for (rest, st3) in _drain(interp, it2, st2, site, k + 1):
                 res.append(([item] + rest, st3))
     return res
+
+
+def m_iter_for_each(interp, fn, args, st, site, frame):
+    """<concrete iterator>.for_each(closure): the closure is run on every item, in order"""
+    if len(args) != 2 or not (isinstance(args[0], Adt) and args[0].name.startswith("it:")):
+        return None
+    try:
+        runs = _drain(interp, args[0], st, site)
+    except ValueError:
+        return None
+    out = []
+    for (items, st2) in runs:
+        states = [st2]
+        for x in items:
+            nxt = []
+            for s_ in states:
+                r = _call_fnlike(interp, args[1], [x], s_, frame, site, "for_each")
+                if r is None:
+                    return None
+                nxt.extend(s3 for (_v, s3) in r)
+            states = nxt
+            if len(states) > 64:
+                return None
+        out.extend((UNIT, s_) for s_ in states)
+    return out
 
 
 def m_vec_extend(interp, fn, args, st, site, frame):
@@ -1055,6 +1084,7 @@ BASE_MODELS = [
     (r"^std::iter::Iterator::enumerate$|as std::iter::Iterator>::enumerate$", m_iter_enumerate),
     (r"^std::iter::Iterator::take$|as std::iter::Iterator>::take$", m_iter_take),
     (r"^std::iter::Iterator::zip$|as std::iter::Iterator>::zip(::<.*>)?$", m_iter_zip),
+    (r"^std::iter::Iterator::for_each$|as std::iter::Iterator>::for_each(::<.*>)?$", m_iter_for_each),
     (r"^std::iter::Iterator::chain$|as std::iter::Iterator>::chain(::<.*>)?$", m_iter_chain),
     (r"^core::slice::<impl \[.*\]>::split_at(_mut)?$", m_split_at_concrete),
     (r"^core::slice::<impl \[.*\]>::len$", m_view_len),
